@@ -42,23 +42,19 @@ func (c caseSpec) id() string { return fmt.Sprintf("%s/%d", c.kind, c.idx) }
 // go-multiaddr dependency (not an anchor of this property) would assign; otherwise the population,
 // not the server, is wrong.
 func selfCheckPopulation(t *testing.T) {
-	for _, s := range append(append([]string{}, pubV4...), pubV6...) {
-		a := ma.StringCast("/ip4/" + s + "/tcp/1")
-		if len(s) > 15 || containsColon(s) {
-			a = ma.StringCast("/ip6/" + s + "/tcp/1")
+	ipAddr := func(s string) ma.Multiaddr {
+		if containsColon(s) {
+			return ma.StringCast("/ip6/" + s + "/tcp/1")
 		}
-		if !manet.IsPublicAddr(a) {
+		return ma.StringCast("/ip4/" + s + "/tcp/1")
+	}
+	for _, s := range append(append([]string{}, pubV4...), pubV6...) {
+		if a := ipAddr(s); !manet.IsPublicAddr(a) {
 			t.Fatalf("population: %s is not public for go-multiaddr", a)
 		}
 	}
 	for _, s := range append(append([]string{}, privV4...), privV6...) {
-		a := ma.StringCast("/ip4/0.0.0.0/tcp/1")
-		if containsColon(s) {
-			a = ma.StringCast("/ip6/" + s + "/tcp/1")
-		} else {
-			a = ma.StringCast("/ip4/" + s + "/tcp/1")
-		}
-		if manet.IsPublicAddr(a) {
+		if a := ipAddr(s); manet.IsPublicAddr(a) {
 			t.Fatalf("population: %s is public for go-multiaddr", a)
 		}
 	}
@@ -109,7 +105,7 @@ func TestC16(t *testing.T) {
 	)
 
 	var cases []caseSpec
-	nA, nB, nC := r.Pick(100, 3400), r.Pick(300, 3000), r.Pick(160, 2400)
+	nA, nB, nC := r.Pick(400, 4000), r.Pick(400, 4000), r.Pick(300, 3000)
 	if race {
 		nA, nB, nC = 0, r.Pick(40, 200), r.Pick(80, 400)
 	}
